@@ -1139,7 +1139,7 @@ func rotatedGuard(l *loop) (bound ssa.Value, exit, latch *ssa.BasicBlock) {
 		return nil, nil, nil
 	}
 	if iff, ok := l.header.Instrs[len(l.header.Instrs)-1].(*ssa.If); ok {
-		if bo, ok := iff.Cond.(*ssa.BinOp); ok && (bo.X == ssa.Value(idx) || bo.Y == ssa.Value(idx)) {
+		if bo, ok := iff.Cond.(*ssa.BinOp); ok && (bo.X == ssa.Value(idx) || bo.Y == ssa.Value(idx)) && (!l.body[l.header.Succs[0]] || !l.body[l.header.Succs[1]]) {
 			return nil, nil, nil // top-tested
 		}
 	}
@@ -1173,6 +1173,13 @@ func rotatedGuard(l *loop) (bound ssa.Value, exit, latch *ssa.BasicBlock) {
 		}
 		pi, ok := pb.Instrs[len(pb.Instrs)-1].(*ssa.If)
 		if !ok {
+			// for i := range <positive constant>: the test in front of the loop is folded away
+			if _, isJump := pb.Instrs[len(pb.Instrs)-1].(*ssa.Jump); isJump {
+				if k, isC := constInt(bo.Y); isC && k >= 1 {
+					okPre = true
+					continue
+				}
+			}
 			return nil, nil, nil
 		}
 		pbo, ok := pi.Cond.(*ssa.BinOp)
